@@ -178,6 +178,7 @@ class TlcResult:
         self.gen = []                 # GEN payloads (parsed JSON)
         self.wall = 0.0
         self.trace_text = ""          # counterexample text if any
+        self.diag = []                # DIAG lines printed by trace specs
 
     def ok(self):
         return self.rc == 0 and not self.violated and not self.error
@@ -219,7 +220,7 @@ def tlc(module, cfg=None, workers=None, simulate=None, depth=None, seed=None, co
         cmd += ["-depth", str(depth)]
     if seed is not None:
         cmd += ["-seed", str(seed)]
-    cmd += list(extra) + [module + ".tla"]
+    cmd += ["-noGenerateSpecTE"] + list(extra) + [module + ".tla"]
     rc, out, wall = sh(cmd, timeout=timeout, cwd=SPEC, env=env)
     shutil.rmtree(meta, ignore_errors=True)
     if os.environ.get("VERIF_VERBOSE"):
@@ -248,6 +249,7 @@ def tlc(module, cfg=None, workers=None, simulate=None, depth=None, seed=None, co
             res.gen.append(json.loads(_unescape_tla(m.group(1))))
         except Exception as ex:   # malformed line = tooling error
             res.error = "unparseable GEN line: %s (%s)" % (m.group(1)[:200], ex)
+    res.diag = re.findall(r'^<<"DIAG", .*$', out, re.M)[:5]
     if rc == 124:
         res.error = "TLC timeout after %ss" % timeout
     elif rc != 0 and not res.violated:
@@ -289,7 +291,7 @@ def tlc_trace(module, cfg, tracefile, timeout=1500, xmx="8g", dfs=False, extra_e
         reached = (int(m[-1]) - 1) if m else reached
         return False, reached, res
     if res.error:
-        raise ToolingError("trace validation (%s): %s" % (module, res.error))
+        raise ToolingError("trace validation (%s): %s" % (module, res.error[:1500]))
     return True, reached, res
 
 
@@ -330,12 +332,12 @@ def validate_trace_segments(chk, module, cfg, tracefile, script_of_segment=None,
         ev = json.loads(lines[min(bad_line, len(lines) - 1)])
         prev = json.loads(lines[bad_line - 1]) if bad_line > 0 else None
         seg_lines = lines[starts[seg]:(starts[seg + 1] if seg + 1 < len(starts) else len(lines))]
-        rec = {"kind": "trace-rejected", "module": module, "event": ev, "previous_event": prev,
+        rec = {"kind": "trace-rejected", "module": module, "diag": res.diag, "event": ev, "previous_event": prev,
                "invariant": res.violated, "segment": json.loads(seg_lines[0]),
                "segment_trace": [json.loads(x) for x in seg_lines[:400]]}
         if script_of_segment:
             rec["script"] = script_of_segment(json.loads(seg_lines[0]))
-        what = "%s refuses event %s" % (module, json.dumps(ev)[:300])
+        what = "%s refuses event %s %s" % (module, json.dumps(ev)[:300], " ".join(res.diag)[:400])
         if res.violated:
             what = "invariant %s violated after event %s" % (res.violated, json.dumps(prev)[:300])
         chk.violation(rec, what)
